@@ -72,6 +72,13 @@ impl super::PathLocator for LuauPathLocator<'_, '_, '_> {
                     })?;
                 extra_module_location.extend(components);
                 path = extra_module_location;
+            } else if let Some(mut extra_module_location) = self
+                .luau_require_mode
+                .get_source(source_name, self.extra_module_relative_location)
+            {
+                // aliases are not restricted to start with `@`
+                extra_module_location.extend(components);
+                path = extra_module_location;
             }
         }
 
